@@ -574,6 +574,11 @@ func cmdRun(args []string) int {
 			exit = 1
 		}
 	}
+	if nViol > 0 {
+		// a violation that was confirmed by its replays is reported as such even when another
+		// candidate of the same run did not reproduce (that one stays an engine error line above)
+		exit = 1
+	}
 
 	// evidence
 	wall := time.Since(start).Seconds()
